@@ -19,6 +19,7 @@ for id in $ids; do
   classes=$(echo "$out" | grep -E '^violation: class=' | sed 's/violation: class=\([^ ]*\).*/\1/' | sort -u | head -4 | tr '\n' ' ')
   echo -e "$id\t$prop\texit=$code\t$((t1-t0))s\t$classes" >> seeded/RESULTS.tsv
   git -C /repo worktree remove --force $wt
-  rm -f /verif/bin/verifsim-_tmp_mm_* /verif/bin/_tmp_mm_*.mod /verif/bin/_tmp_mm_*.sum
+  tag=$(echo "$wt" | tr -c 'A-Za-z0-9' _)
+  rm -f /verif/bin/verifsim-$tag /verif/bin/verifsim-$tag-race /verif/bin/$tag.mod /verif/bin/$tag.sum
   rm -f /verif/replays/$prop-1-*.json
 done
